@@ -71,6 +71,22 @@ class Tracker:
         self.updates.append((set(ok), set(failed)))
 
 
+def mk_manager(inv_bats):
+    """BatteryManager with the four component maps its constructor derives from the component graph."""
+    mgr = BatteryManager.__new__(BatteryManager)
+    bat_invs = {}
+    for i, bats in inv_bats.items():
+        for b in bats:
+            bat_invs.setdefault(b, set()).add(i)
+    mgr._inv_bats_map = dict(inv_bats)
+    mgr._bat_invs_map = {b: frozenset(v) for b, v in bat_invs.items()}
+    mgr._bat_bats_map = {b: frozenset(set().union(*[inv_bats[i] for i in invs])) for b, invs in mgr._bat_invs_map.items()}
+    mgr._inv_invs_map = {i: frozenset(set().union(*[mgr._bat_invs_map[b] for b in bats])) for i, bats in inv_bats.items()}
+    mgr._api_power_request_timeout = timedelta(seconds=5)
+    mgr._component_pool_status_tracker = Tracker()
+    return mgr
+
+
 def check_battery_result(ex, res, P, dist_map, rem, inv_bats, outcomes, calls):
     allbats = set().union(*inv_bats.values())
     failed = [c for c in dist_map if outcomes.get(c) != "ok"]
@@ -105,10 +121,7 @@ def make_battery_direct(topo, reach=False):
     def fn(ex):
         calls, outcomes = [], {}
         connection_manager._CONNECTION_MANAGER = types.SimpleNamespace(api_client=make_api(ex, calls, outcomes), component_graph=None)
-        mgr = BatteryManager.__new__(BatteryManager)
-        mgr._inv_bats_map = inv_bats
-        mgr._api_power_request_timeout = timedelta(seconds=5)
-        mgr._component_pool_status_tracker = Tracker()
+        mgr = mk_manager(inv_bats)
         sp = {cid: ex.real(f"s{cid}") for cid in inv_bats}
         rem = ex.real("rem")
         P = sum(sp.values(), rem)
@@ -141,10 +154,7 @@ def make_battery_full(shape, sign, all_ok, exponent=1.0):
                 inv_bats[i] = frozenset(G.bat_ids)
         calls, outcomes = [], {}
         connection_manager._CONNECTION_MANAGER = types.SimpleNamespace(api_client=make_api(ex, calls, outcomes, all_ok), component_graph=None)
-        mgr = BatteryManager.__new__(BatteryManager)
-        mgr._inv_bats_map = inv_bats
-        mgr._api_power_request_timeout = timedelta(seconds=5)
-        mgr._component_pool_status_tracker = Tracker()
+        mgr = mk_manager(inv_bats)
         req = Request(power=Power.from_watts(P), component_ids=set().union(*inv_bats.values()))
         dist_map, rem = dict(dres.distribution), dres.remaining_power
         res = fx.run_loop(mgr._distribute_power(req, dres))
